@@ -96,7 +96,7 @@ HARNESSES = [
 _IFGET = ['_ZN15CPPPreprocessor9InputFile3getEv', '_ZN15CPPPreprocessor9InputFile4peekEv']   # served from the harness byte buffer
 _TRIM = '_ZL11trim_blanksRKNSt7__cxx1112basic_stringIcSt11char_traitsIcESaIcEEE'
 
-def _scan(id_, entry, desc, domain, extra_h=(), q=4, t=6):
+def _scan(id_, entry, desc, domain, extra_h=(), q=3, t=4):
     return {'id': id_, 'property': 'C15', 'src': 'c15_scanners.cxx', 'entry': entry,
             'tus': _TUS, 'skip_ctors': _SKIP, 'cut': _CUT_HEAP_STRINGS + _IFGET, 'export': [_TRIM], 'models': ['noinline.c'],
             'tuflags': _TUF, 'hflags': _GA + list(extra_h), 'nonterm_is_violation': True,
